@@ -57,6 +57,25 @@ PROVED = {
          "and header validation requests at most 16 bytes of buffer. Real heap usage (old+new buffer during growth, payload copies, queue) is an "
          "implementation-level oracle measured by the harness' counting allocator: partial by nature.",
          "The allocator and Vec/Box growth are not modelled; the measured bound 3*max(m, cap, 16)+4*len+64KiB is an oracle, not a theorem. "),
+ "C13": ("Theorem C13_tolerated_kinds_impossible: for every configuration, input and next()/try_recover() sequence, no reported error belongs to a "
+         "tolerated class and, with unknown ids not tolerated, no successful item is or contains a raw tag (over whole runs of the abstract reader; "
+         "transferred to the buffered machine for every chunking/capacity by C04_refines); header checks can only produce errors of non-tolerated "
+         "classes or the never-tolerated kinds; the size limit is enforced under every tolerance setting. PARTIAL: monotonicity (strict items are a "
+         "prefix of every more tolerant parse) and the exact error kind/offset per injected fault are covered by the correspondence groups over all 8 "
+         "tolerance subsets, not proved.", ""),
+ "C03": ("Theorem C03_tag_mirrors_bytes (per tag, every configuration/state/input): the item's offset is the cursor, the id decoded there is the "
+         "item's id, the input splits as header ++ payload ++ rest with the cursor advancing exactly over them, a master's payload part is empty and an "
+         "element's value is the documented decoding of its payload; the buffered machine reads the same tags at the same offsets for every "
+         "chunking/capacity (C04_refines). PARTIAL: the run-level statements (End/Full items report their Start's offset, tiling over a whole run) "
+         "are covered by correspondence with an independent re-decoder at every reported offset, not proved.", ""),
+ "C18": ("Theorems over a Gallina model of the derive pipeline (attribute parsing order, Crc32/Void appending, duplicate-id check, validate_path, "
+         "generated tables): for every accepted declaration the generated table has pairwise distinct ids and reports exactly the declared "
+         "type/resolved path per id and unknown/empty otherwise; Crc32/Void/raw-tag present; spec_ok (every named parent is a master) and hence the "
+         "iterator's implied-parent seeding never hits the 'bad specification' panic; constructor/accessor tables; the easy_ebml lowering; one "
+         "general rejection theorem per malformation class. Tied to the code by (a) calling the real impl_ebml_specification / easy_ebml entry "
+         "points as a library on generated good and systematically broken declarations and reading the tables back from the generated token "
+         "streams (both front-ends compared), (b) enums compiled with the real macros and probed at run time.",
+         "syn/quote/proc-macro2, rustc and macro hygiene are not modelled; duplicate variant names / reserved names are left to rustc (model mirrors the macro). "),
  "C20": ("PARTIAL + known finding D15. Theorem C20_first_read_partial: if the source delivers the whole input (<= 64 KiB) with its first read the "
          "async iterator yields exactly the abstract reader's run (= the blocking iterator by C04_refines), ending once. C20_refuted exhibits a schedule "
          "(first read of 1 byte) on which the faithful model differs from the blocking run: the property as stated is violated by nonblocking.rs "
